@@ -266,6 +266,60 @@ func famRolling(cloud bool, bounds map[string]int) []*Scenario {
 	return out
 }
 
+// famTwoDeletes: an immutable deployment is scaled down by one and two of its pods are deleted; their delete events are
+// handled concurrently (the release loop starts one goroutine per event). Exactly one IP may be released: the replacement
+// pod scheduled afterwards must take the other one from the reserve.
+func famTwoDeletes(cloud bool, bounds map[string]int) []*Scenario {
+	var out []*Scenario
+	for _, c := range []wkClass{{"dp", "immutable"}} {
+		c := c
+		out = append(out, &Scenario{Name: "two-deletes/" + c.String(), Class: c.String(), Cfg: cfgOnePool(4, cloud), Bounds: bounds, Weight: 3,
+			Build: func(w *world.World) []Thread {
+				c.setWorkload(w, 3)
+				var evs [][]world.Event
+				var ips []string
+				for i := 0; i < 3; i++ {
+					w.CreatePod(c.pod(i))
+					mustSchedule(w, c.pod(i).Key())
+				}
+				c.setWorkload(w, 2)
+				for i := 0; i < 2; i++ {
+					ips = append(ips, w.Bindings[i].IPs...)
+					w.DeletePod(c.pod(i).Key())
+					evs = append(evs, takePending(w))
+				}
+				repl := c.pod(0)
+				repl.Name = "d-r1-w"
+				w.CreatePod(repl)
+				if w.MustKeep == nil {
+					w.MustKeep = map[string]string{}
+				}
+				w.MustKeep["replacement:"+repl.Key()] = strings.Join(ips, ",")
+				return []Thread{
+					{"deliver-a", deliverAll(w, evs[0])},
+					{"deliver-b", deliverAll(w, evs[1])},
+				}
+			},
+			Final: func(w *world.World) {
+				quiesce(w)
+				// two replicas: the surviving pod's IP and one IP in reserve (a fresh allocation for the replacement could pick the
+				// very address that was released, so the reserve itself is looked at before the replacement is scheduled)
+				held := 0
+				for _, st := range w.MemDump() {
+					if st.Alloc && strings.HasPrefix(st.Key, "dp_ns_d_") {
+						held++
+					}
+				}
+				if held != 2 {
+					w.MustKeep["violation"] = fmt.Sprintf("after both delete events the deployment (2 replicas, one live pod) holds %d IPs instead of 2: %v", held, allocOnly(w.MemDump()))
+				}
+				scheduleRetry(w, "ns/d-r1-w", 2)()
+			},
+		})
+	}
+	return out
+}
+
 // famAPIRelease (S5): an administrator posts a listed entry back to the release API while the
 // scheduler works on the pod that is entitled to the IP.
 func famAPIRelease(cloud bool, bounds map[string]int) []*Scenario {
